@@ -45,6 +45,14 @@ CHECKS = {
          "process in both orders must equal fresh ones. Each case builds the real Configuration in its own scratch directory.",
          "Trusts the per-kind value generators; options rewritten by mode switches are compared only where the switch does not apply; where the statement is silent (append options given in both places) both documented outcomes are accepted.",
          "DESIGN.md section 5, C20"),
+
+ "C02": ("exploration",
+         "exhaustive enumeration of all step-outcome sequences up to a length bound in 6 scenario contexts x switch combinations x sync/async on the real runner, call log and step statuses compared with a reference interpreter; re-run histories of one model object",
+         "All outcome sequences over {pass, fail, error, pending, undefined, skip, kbi, convert} of length <=3 (thorough <=4, 5 in the plain context) in each of {scenario, outline row} x {no, feature, feature+rule background} "
+         "x {@wip} x {dry-run} x {continue_after_failed_step} x {sync, async}; the call log recorded by generated step functions and every step status must equal the reference prediction; repeated runs of the same model "
+         "with different outcome tables must end like a fresh run of the last table.",
+         "Trusts vlib/refrun.py; under continue_after_failed_step both admissible readings after an undefined/pending/interrupted step are accepted; no random tail beyond the bound.",
+         "DESIGN.md section 5, C02"),
 }
 PENDING_REASON = "check not built yet in this round (planned, see DESIGN.md section 5); nothing is claimed for it so far"
 
